@@ -212,7 +212,6 @@ Section Classes.
                 | DictOf kk =>
                   match raw with
                   | JObj members => do l' <- mapM (dict_entry (pk f) kk (f_kind fl)) members; Ok (MDict l')
-                  | JStr [] | JArr [] => Ok (MDict [])
                   | _ => reject
                   end
                 end = Ok x -> incl (classes_in x) R).
@@ -220,8 +219,6 @@ Section Classes.
       - eapply IH; eassumption.
       - eapply list_items_classes; eassumption.
       - destruct raw as [|b|z|a e|s|l|ms]; try discriminate H.
-        + destruct s; [|discriminate H]. injection H as <-. intros c Hc. destruct Hc.
-        + destruct l; [|discriminate H]. injection H as <-. intros c Hc. destruct Hc.
         + destruct (mapM (dict_entry (pk f) kk (f_kind fl)) ms) as [l'|e] eqn:Em; cbn [bind] in H; [|discriminate H].
           injection H as <-. cbn [classes_in]. intros c Hc. apply in_flat_map in Hc. destruct Hc as [kv' [Hy Hc]].
           destruct (mapM_ok_in _ _ _ _ _ Em kv' Hy) as [kv [_ Hx]]. unfold dict_entry in Hx.
